@@ -514,6 +514,9 @@ func (h *Heap) array(name, sort string) *Term {
 }
 
 func (h *Heap) set(name string, t *Term) {
+	if knownArrays[name] == "" {
+		knownArrays[name] = t.Sort
+	}
 	h.arr[name] = t
 	h.ver = Fresh("hv", SInt)
 }
